@@ -3,6 +3,7 @@ import GoSQLXModel.Model.Tables
 import GoSQLXModel.Gen.AstTables
 import GoSQLXModel.Gen.Produced
 import GoSQLXModel.Gen.Known
+import GoSQLXModel.Gen.Structure
 /-!
 # C14 — Tree traversal reaches every node of every tree
 
@@ -38,6 +39,9 @@ theorem gen_children_complete_partial : unlistedOffenders = [] := by decide +ker
 
 /-- the walk over the extracted table -/
 def genTable : ChildTable := fun ty => ChildrenTbl.get Gen.childrenTable ty
+
+/-- no `Children()` method hands out the address of a range variable (all such children would be one object) -/
+theorem gen_children_no_range_address : Gen.Structure.childrenRangeAddr = [] := by decide +kernel
 
 /-- **C14** for every tree covered by today's table: visit sequence = reachable nodes -/
 theorem walk_visits_exactly (v : Val) (h : v.covered genTable none = true) : v.walk genTable none = v.nodes :=
